@@ -183,14 +183,16 @@ def keystream(rep, prog):
 
 
 def sealnonce(rep, prog):
-    fs = prog.by_path.get("classic::crypto_box::crypto_box_seal_nonce", [])
-    if not fs:
-        # discovered by what it does: crate fn with a `[u8;24]` out-param reaching generichash
-        fs = [f for f in prog.fns if f.path.startswith("classic::crypto_box::") and f.argc == 3 and "[u8; 24]" in f.locals[1]["t"]]
-    if not fs:
-        rep.violation("ANCHOR", "seal nonce derivation", "function deriving the sealed-box nonce not found")
+    """On the public crypto_box_seal with its helpers folded in (wherever the nonce derivation lives and
+    whatever it is called): nonce = generichash_24(epk || recipient_pk), epk being the key that is
+    written to the ciphertext prefix, and that nonce is the one the box is sealed with."""
+    from ..inline import inline as _inl
+    from ..expr import deep_repr
+    seals = prog.by_path.get("classic::crypto_box::crypto_box_seal", [])
+    if not seals:
+        rep.violation("ANCHOR", "crypto_box_seal", "public function not found")
         return
-    f = fs[0]
+    f = _inl(prog, seals[0])
     inits = [c for c in f.calls() if c.rpath.endswith("crypto_generichash_init")]
     ups = [c for c in f.calls() if c.rpath.endswith("crypto_generichash_update")]
     fins = [c for c in f.calls() if c.rpath.endswith("crypto_generichash_final")]
@@ -201,19 +203,27 @@ def sealnonce(rep, prog):
     if not ok:
         return
     outlen = evaluate(call_arg_exprs(inits[0])[1], {})
-    rep.ob("SEALNONCE", "output length NONCEBYTES", outlen == 24, "generichash output length %s" % outlen, loc=inits[0].loc())
-    a, b = seq[0][0], seq[1][0]
-    rep.ob("SEALNONCE", "order epk||rpk", (a, b) == (2, 3) and all(x[2] in f.dom.get(fins[0].bb, ()) for x in seq) and all(inits[0].bb in f.dom.get(u.bb, ()) for u in ups),
-           "first absorbed operand is parameter #%s, second parameter #%s (expected ephemeral pk then recipient pk)" % (a, b), loc=ups[0].loc())
-    out = cm.view_info(f, list(operand_locals(fins[0].args[1]))[0])[0]
-    rep.ob("SEALNONCE", "output is the nonce", out == 1, "final writes parameter #%s" % out, loc=fins[0].loc())
-    # the sealing function prepends epk: ciphertext[..32] <- epk from the generated pair
-    from ..inline import inline as _inl
-    for s in [_inl(prog, s_) for s_ in prog.by_path.get("classic::crypto_box::crypto_box_seal", [])]:
-        cts = [p for p in cm.params_of(s) if s.locals[p]["t"] == "&mut [u8]"]     # crypto_box_seal(ciphertext, message, pk)
-        ct = cts[0] if len(cts) == 1 else s.arg_local("ciphertext")
-        cps = [c for c in s.calls() if c.path in cm.COPY
-               and cm.view_info(s, list(operand_locals(c.args[0]))[0])[0] == ct]
-        kp = [c for c in s.calls() if "keypair" in c.rpath]
-        okp = bool(cps) and bool(kp) and any(kp[0].dest["l"] in s.backward_slice(operand_locals(c.args[1])) for c in cps)
-        rep.ob("SEALNONCE", "epk is the ciphertext prefix", okp, "ciphertext prefix is copied from the generated ephemeral public key", loc=s.loc())
+    rep.ob("SEALNONCE", "outlen=NONCEBYTES", outlen == 24, "generichash output length %s (crypto_box_NONCEBYTES = 24)" % outlen, loc=inits[0].loc())
+    cts = [p for p in cm.params_of(f) if f.locals[p]["t"] == "&mut [u8]"]     # crypto_box_seal(ciphertext, message, recipient_pk)
+    ct = cts[0] if len(cts) == 1 else 1
+    rpk = [p for p in cm.params_of(f) if "[u8; 32]" in f.locals[p]["t"]]
+    kp = [c for c in f.calls() if "keypair" in c.rpath]
+    # the key copied into the ciphertext prefix
+    cps = [c for c in f.calls() if c.path in cm.COPY and operand_locals(c.args[0]) and cm.view_span(f, list(operand_locals(c.args[0]))[0]) == (ct, 0)]
+    epk_txt = {deep_repr(call_arg_exprs(c)[1]).replace("deref(", "").replace("as_slice(", "").replace("as_ref(", "").replace(")", "") for c in cps}
+    first_txt = deep_repr(seq[0].expr).replace("deref(", "").replace("as_slice(", "").replace("as_ref(", "").replace(")", "")
+    from_kp = bool(kp) and any(kp[0].dest["l"] in f.backward_slice(operand_locals(c.args[1])) or
+                               any(kp[0].bb in f.dom.get(c.bb, ()) and cm.view_info(f, l)[0] in {cm.view_info(f, x)[0] for a in kp[0].args for x in operand_locals(a)}
+                                   for l in operand_locals(c.args[1])) for c in cps)
+    rep.ob("SEALNONCE", "epk is the ciphertext prefix", bool(cps) and from_kp,
+           "ciphertext[..32] is copied from the generated ephemeral public key (%d copy call(s) at offset 0)" % len(cps), loc=f.loc())
+    b = seq[1][0]
+    rep.ob("SEALNONCE", "order epk||rpk", first_txt in epk_txt and len(rpk) == 1 and b == rpk[0] and
+           all(x[2] in f.dom.get(fins[0].bb, ()) for x in seq) and all(inits[0].bb in f.dom.get(u.bb, ()) for u in ups),
+           "first absorbed operand %s (the key written to the ciphertext prefix: %s), second parameter #%s (recipient public key #%s)" % (
+               first_txt[:40], sorted(epk_txt)[:1], b, rpk[:1]), loc=ups[0].loc())
+    # the derived nonce is the one the box is sealed with
+    nroot = cm.view_info(f, list(operand_locals(fins[0].args[1]))[0])[0]
+    easy = [c for c in f.calls() if c.rpath.endswith("crypto_box::crypto_box_easy") or c.rpath.endswith("crypto_box_detached")]
+    used = bool(easy) and any(cm.view_info(f, l)[0] == nroot for a in easy[0].args for l in operand_locals(a)) and fins[0].bb in f.dom.get(easy[0].bb, ())
+    rep.ob("SEALNONCE", "output is the nonce", used, "the buffer written by generichash_final is the nonce operand of the sealing call", loc=fins[0].loc())
